@@ -50,7 +50,6 @@ inductive Err where
   | pasteAtEnd              -- "'##' cannot appear at end of macro expansion"
   | pasteInvalid            -- "pasting forms '..', an invalid token"
   | lexError                -- tokenize() rejected the pasted text (unclosed comment / literal, invalid character)
-  | nullDeref               -- the C code dereferences NULL (paste of `/` `/`: `//` is a comment, tokenize returns only EOF)
   | macroNameNotIdent       -- "macro name must be an identifier"
   | expectedIdent           -- "expected an identifier"
   | errorDirective          -- #error
@@ -174,7 +173,7 @@ end Lex
 inductive LexOne where
   | one (k : Kind)     -- exactly one token (the whole text)
   | many               -- more than one token: "pasting forms .. an invalid token"
-  | none               -- no token at all (`//` is a comment): the C code dereferences NULL
+  | none               -- no token at all (`//` is a comment)
   | error              -- tokenize() itself reports an error
   deriving DecidableEq, Repr
 
@@ -434,7 +433,7 @@ def paste (lx : String → LexOne) (lhs rhs : Tok) : Except Err Tok :=
   match lx buf with
   | .one k => .ok { kind := k, text := buf, hasSpace := lhs.hasSpace, atBol := lhs.atBol, line := lhs.line }
   | .many => .error .pasteInvalid
-  | .none => .error .nullDeref
+  | .none => .error .pasteInvalid      -- `tok->kind == TK_EOF`: the pasted text is a comment (`/` ## `/`)
   | .error => .error .lexError
 
 /-! ## `subst` -/
